@@ -256,6 +256,10 @@ def check(P, R, tier):
     R.floor("RF-fresh", "uses of looked-up period lengths in the date core", nf, 50)
     n = lentab.check(P, R, tu, {"mdays", "mcnt", "bdays", "ydays"}, rule="RF2-closed")
     R.floor("RF2-closed", "entries of period tables spelled as closed forms", n, 250)
+    # a sign read apart from the number is applied by negating the parsed duration
+    import durdecode
+    nn = durdecode.check(R, P, "RF2-neg")
+    R.floor("RF2-neg", "decoded parses / negations / sign tests of durations", nn, 150)
 
 
 LEVEL = ("Decides exact day and week addition for the four calendars with carry loops by decoding the adders with the count kept symbolic "
